@@ -152,6 +152,9 @@ def run_case(case, ctx):
             # neighbours at which some or all steps leave the domain / hit the pole
             hostile_vals = dict(sqrt=[1e-3, 1e-6, -0.5], recip=[1e-3, -1e-3, 1e-9], mobius=[-2.0, -1.999, -2.3],
                                 rational=[1e3, -1e3, 0.0], cubic=[1e6, -1e6, 0.0], xsqrt=[1e5, 0.0, -1e5])[case['fun']]
+            # ... and neighbours of a very different magnitude (huge ones swallow every step: x + h == x)
+            hostile_vals = hostile_vals + ([1e13, 1e15, 1e17, 1e-300] if case['fun'] in ('sqrt', 'recip', 'mobius')
+                                           else [1e13, -1e15, 1e17, -1e-300])
             if case['fun'] == 'sqrt' and kwds.get('b') is not None:
                 hostile_vals = [v - kwds['b'] for v in hostile_vals]
             mask = rng.random(size) < 0.5
